@@ -1,11 +1,15 @@
 """C05 configuration."""
 PROP = dict(
-    quick_n=4000, thorough_n=120000,
+    quick_n=2800, thorough_n=120000,
     trusted_base=[
         "elements of collections are modelled by their meaning (V): CallAll/SeqArrowExpr/Concatenate treat them opaquely; "
         "Equal/Hash of element values agreeing with equality of meanings is C02's obligation",
         "frozen.Map.Get / frozen.Set as finite maps/sets with distinct keys/members (the decidable invariants Coll.wf / Coll.wfCount); "
         "Go map iteration order of the builder's buckets is immaterial (the model fixes one order, the theorems quantify over all lists)",
+        "the cached fields String.holes and Array.count are DERIVED in the model (number of negative runes / of items): every Go "
+        "constructor that builds a String or Array must set them so; this is not visible in canon(result), so every value-rooted "
+        "program (and every third called collection) is also observed through `count`, `= <literal of the specified result>` in "
+        "both orders and a follow-up `++` whose shift is the count (stratum counters/*)",
         "String.holes is the number of negative runes (NewOffsetString and asString compute it by counting; String.Without's "
         "incremental maintenance is C01's)",
         "wfCount (members held once, buckets disjoint) is proved to give Count() = number of members, but is not proved to be "
@@ -24,12 +28,12 @@ PROP = dict(
         "not generated (other properties' defects): `with`, `|` of two sequences of the same kind, `without` on byte arrays or at "
         "an end of a sequence, `where`/`without` on dicts",
     ],
-    level_text="Proof: 26 Lean theorems. Specification = the property (call returns v iff v is the only value paired with the key; no-value / "
+    level_text="Proof: 27 Lean theorems. Specification = the property (call returns v iff v is the only value paired with the key; no-value / "
                "more-than-one characterised; >> keeps every (key, attribute) pair). The transliterated Go code refines it, at full strength "
                "for all inputs: call_refines and call_total (SetCall over CallAll of all 9 representations = Spec.callAny on the meaning incl. "
                "the error class, for keyed AND non-keyed sets), call_rep_indep(_total), safecall_refines/safecall_fallback, seqarrow_refines "
                "(String/Bytes/Array/Dict), seqarrow_set_error_iff + seqarrow_set_error_class + seqarrow_nonkeyed_error (the generic loop is proved "
-               "EQUAL to the specification's member map: setLoop_eq), offset_refines/offset_bad_error/offset_compose, concat_error_iff, "
+               "EQUAL to the specification's member map: setLoop_eq), offset_refines/offset_bad_error/offset_compose/offset_result_counts (Count() survives an offset, holes included), concat_error_iff, "
                "count_is_card (Count() of every representation = number of members; no longer trusted), results_wf. Through the set builder "
                "(proved exact on representable sets): concat_refines_partial and seqarrow_set_refines_partial carry the hypothesis 'the specified "
                "result is representable' (KF-superimposed/KF-bytes-holes) with machine-checked witnesses concat_full_false, seqarrow_full_false. "
